@@ -104,6 +104,7 @@ type State struct {
 	ghost    map[string]*Term
 	path     []string // decisions (for witnesses)
 	blockedAt string
+	fmtArgs   []Value
 	inArm    int // > 0 while executing one arm of a diamond that is being merged
 	dead     bool
 	finished bool
